@@ -172,19 +172,10 @@ theorem views_are_the_source_chains (m : Matrix α) (n : Nat) :
     (BridgeViews.guarded_mut_agree m.hdr n).1, (BridgeViews.guarded_mut_agree m.hdr n).2,
     BridgeViews.guarded_major m.hdr n, BridgeViews.guarded_minor m.hdr n⟩
 
-/-- Tie T1 (re-extracted from src/iter.rs on every run): every row function uses the major axis of a
-row-major and the minor axis of a column-major matrix, every column function the other way round,
-and the two arms of each dispatch are the same call up to the axis -/
-theorem view_dispatch_duality :
-    (Gen.orderDispatch.filter (·.1 == "iter.rs")).map (fun r => (r.2.1, r.2.2.1, r.2.2.2.1, r.2.2.2.2)) =
-      [("iter_rows", "major", "minor", "self.iter_nth_{axis}_axis_vector_unchecked(n)"),
-       ("iter_cols", "minor", "major", "self.iter_nth_{axis}_axis_vector_unchecked(n)"),
-       ("iter_rows_mut", "major", "minor", "IterVectorsMut::over_{axis}_axis(self)"),
-       ("iter_cols_mut", "minor", "major", "IterVectorsMut::over_{axis}_axis(self)"),
-       ("iter_nth_row", "major", "minor", "self.iter_nth_{axis}_axis_vector(n)"),
-       ("iter_nth_col", "minor", "major", "self.iter_nth_{axis}_axis_vector(n)"),
-       ("iter_nth_row_mut", "major", "minor", "self.iter_nth_{axis}_axis_vector_mut(n)"),
-       ("iter_nth_col_mut", "minor", "major", "self.iter_nth_{axis}_axis_vector_mut(n)")] := by decide
+/- The table theorem `view_dispatch_duality` (T1) was retired in the fourth session: `BridgeT12.iter_rows_is_the_source`
+… `iter_nth_col_mut_is_the_source` and `C06.mut_entry_points_are_the_source` (T17) prove every regenerated dispatch equal to
+the model's, which is strictly stronger, and the table alarmed on harmless rewrites (renamed closure parameters, `if
+self.order == ..` instead of `match`). -/
 
 /-! ### non-vacuity -/
 def ex23 : Matrix Nat := ⟨.colMajor, ⟨3, 2⟩, #[1, 4, 2, 5, 3, 6]⟩   -- logical 2×3
